@@ -339,9 +339,9 @@ class Check(core.PropertyCheck):
 
     def model_runs(self, ctx):
         if ctx.quick:
-            return [ctx.model_check(self.MODEL, self.model_constants("quick"), dump=True)]
+            return [ctx.model_check(self.MODEL, self.model_constants("quick"), dump=True, timeout=900)]
         big = ctx.model_check(self.MODEL, self.model_constants("thorough"), dump=False, tag="_big")
-        small = ctx.model_check(self.MODEL, self.model_constants("dumped"), dump=True)
+        small = ctx.model_check(self.MODEL, self.model_constants("dumped"), dump=True, timeout=1500)
         return [small, big]
 
     @staticmethod
